@@ -204,6 +204,7 @@ func Run(ctx context.Context, stmt ast.Stmt, setup Setup) (obs Obs, id int64) {
 		add(l)
 		return nil
 	})
+	e.Define("pa", func(ptr interface{}) interface{} { add(int64(77)); return nil })
 	e.Define("harr", [3]int64{1, 2, 3}) // an unaddressable Go array: slicing it panics inside reflect
 	if setup != nil {
 		setup(e)
@@ -230,7 +231,7 @@ func Run(ctx context.Context, stmt ast.Stmt, setup Setup) (obs Obs, id int64) {
 	obs.Log = log
 	mu.Unlock()
 	for _, s := range e.GetValueSymbols() {
-		if s == "p" || s == "pv" || s == "pn" || s == "harr" {
+		if s == "p" || s == "pv" || s == "pn" || s == "pa" || s == "harr" {
 			continue
 		}
 		v, gerr := e.Get(s)
